@@ -13,6 +13,7 @@ Open finding C16-K6 (same variable name at two inheritance levels): `same_name_s
 -/
 import NV.C16.Model
 import NV.C16.Tree
+import NV.C16.ProofHash
 
 namespace NV.C16.Witness
 
@@ -110,5 +111,35 @@ theorem same_name_variables :
         [.str [97], .str [98]]).2 with
       | .done vals => vals
       | _ => []) = [.str [98], .int 0] := by rfl
+
+/-! ### why `restore_mapping_all_found` is not vacuous: a bucket re-derived with the OLD mask loses the key
+
+The independently written change C16-4 replaced `if (oi & ++mask) elt2 = a[i |= mask]; mask <<= 1; mask--;` by
+`elt2 = a[i = oi & mask]; mask = m->table_size;` (bucket picked again with the mask of the table BEFORE it doubled). -/
+
+open NV.C16.Hash in
+/-- one pair of restore_mapping with that change -/
+def insertOldMask (h : Nat → Nat) (t : Tbl Nat) (k : Nat) : Option (Tbl Nat) :=
+  let i := h k &&& t.mask
+  let chain := t.buckets.getD i []
+  if chain ≠ [] then
+    if chain.contains k then some t else some ⟨t.buckets.set i (k :: chain), t.unfilled⟩
+  else
+    let unf := dec16 t.unfilled
+    if unf = 0 then
+      match grow h ⟨t.buckets, unf⟩ with
+      | none => none
+      | some g => some ⟨g.buckets.set i (k :: g.buckets.getD i []), g.unfilled⟩
+    else some ⟨t.buckets.set i [k], unf⟩
+
+open NV.C16.Hash in
+/-- `([16:1,32:2,48:3,64:4,80:5,224:6,])`: the sixth pair makes the 8-bucket table grow; its hash 14 has the new bit
+set, so it belongs into bucket 14 of the doubled table — the changed code links it into bucket 6, where no lookup of 224
+(`14 & 15`) finds it, while the code as it is does -/
+theorem old_mask_loses_the_key :
+    ((([16, 32, 48, 64, 80, 224] : List Nat).foldl (fun (t : Option (Tbl Nat)) k => t.bind (fun t => insertOldMask intHash t k))
+        (some (empty 3))).map (fun t => find intHash t 224)) = some false ∧
+    ((insertAll intHash (empty 3) [16, 32, 48, 64, 80, 224]).map (fun t => find intHash t 224)) = some true := by
+  decide
 
 end NV.C16.Witness
